@@ -718,9 +718,10 @@ func redisConcMerge(c *Ctx, s *cmdSched, kind string) {
 
 type faultHook struct {
 	mu    sync.Mutex
-	armed bool
-	lost  bool // true: execute, then lose the reply; false: refuse before execution
-	fired int
+	armed  bool
+	lost   bool // true: execute, then lose the reply; false: refuse before execution
+	sticky bool // true: every command fails until disarmed (an outage), false: the next one only
+	fired  int
 }
 
 func (f *faultHook) DialHook(next redis.DialHook) redis.DialHook { return next }
@@ -730,7 +731,7 @@ func (f *faultHook) ProcessHook(next redis.ProcessHook) redis.ProcessHook {
 		hit := f.armed
 		lost := f.lost
 		if hit {
-			f.armed = false
+			f.armed = f.sticky
 			f.fired++
 		}
 		f.mu.Unlock()
@@ -877,12 +878,12 @@ func redisFaultsBloom(c *Ctx, fh *faultHook) {
 	present := 0
 	for i := 0; i < c.scale(60, 300); i++ {
 		fh.mu.Lock()
-		fh.armed, fh.lost = true, i%2 == 0
+		fh.armed, fh.lost, fh.sticky = true, i%2 == 0, i%3 != 0 // one failing command, or an outage
 		fh.mu.Unlock()
 		got := false
 		safely(func() { got = f.Lookup([]byte(fmt.Sprintf("never-inserted-%d", i))) })
 		fh.mu.Lock()
-		fh.armed = false
+		fh.armed, fh.sticky = false, false
 		fh.mu.Unlock()
 		if got {
 			present++
@@ -891,7 +892,7 @@ func redisFaultsBloom(c *Ctx, fh *faultHook) {
 	}
 	if present > 0 {
 		c.fail([]string{"C16", "C01", "C15"}, "bloom-empty-filter-reports-present-under-fault",
-			fmt.Sprintf("an EMPTY Redis Bloom filter reported %d never-inserted elements present when one GETBIT of the lookup failed", present),
+			fmt.Sprintf("an EMPTY Redis Bloom filter reported %d never-inserted elements present when GETBITs of the lookup failed (one command, or all of them)", present),
 			map[string]interface{}{"lookups_with_one_failing_command": c.scale(60, 300)})
 	}
 	c.branch("fault-injection-bloom")
